@@ -56,7 +56,7 @@ def native_disagrees(impl, w, a, m):
 
 
 def decode(m, cs):
-    return ''.join(chr(m.eval(c, model_completion=True).as_long()) for c in cs)
+    return ''.join(chr(c) if isinstance(c, int) else chr(m.eval(c, model_completion=True).as_long()) for c in cs)
 
 
 def values_differ(eng, a, b):
@@ -76,7 +76,7 @@ def values_differ(eng, a, b):
 
 
 def run_diff(impl, ref, interp, lengths, alphabet, deadline, stubs=None, allowed_exc=(), skip=None,
-             name='s', stats=None, classify=None):
+             name='s', stats=None, classify=None, nonascii=(), prefix='', suffix=''):
     """alphabet: function(c) -> z3 constraint on a code point variable.
     Returns (exhausted, cexs, stats)."""
     stats = stats if stats is not None else {'paths': 0, 'completed': 0, 'queries': 0, 'outcomes': {}, 'funcs': set(), 'unknown': 0}
@@ -84,9 +84,14 @@ def run_diff(impl, ref, interp, lengths, alphabet, deadline, stubs=None, allowed
     exhausted = True
     for n in lengths:
         eng = Engine(set(interp), stubs=dict(stubs or {}))
+        eng.nonascii_domain = tuple(nonascii)
         cs = [z3.Int('c%d' % i) for i in range(n)]
         pre = [alphabet(c) for c in cs]
         s = SymStr(cs) if n else ''
+        if prefix or suffix:
+            s = SymStr([ord(x) for x in prefix] + cs + [ord(x) for x in suffix])
+            _cs = cs
+            cs = s.cs                 # decode() renders the whole string
 
         def thunk():
             if pre:
@@ -111,7 +116,7 @@ def run_diff(impl, ref, interp, lengths, alphabet, deadline, stubs=None, allowed
                 return
             tag, a, b = val
             if tag == 'skipped':
-                stats['outcomes']['skipped(known finding)'] = stats['outcomes'].get('skipped(known finding)', 0) + 1
+                stats['outcomes']['skipped(outside domain or known finding)'] = stats['outcomes'].get('skipped(outside domain or known finding)', 0) + 1
                 return
             key = '%s:%s' % (a[0], type(a[1]).__name__ if a[0] == 'raise' else ('None' if a[1] is None else 'value'))
             stats['outcomes'][key] = stats['outcomes'].get(key, 0) + 1
@@ -208,7 +213,7 @@ def run_total(call, native, interp, lengths, alphabet, deadline, allowed_exc, st
                 cexs.append({'args': {name: decode(m, cs)}, 'message': 'harness raised %r' % (val,)})
                 return
             if val == 'skipped':
-                stats['outcomes']['skipped(known finding)'] = stats['outcomes'].get('skipped(known finding)', 0) + 1
+                stats['outcomes']['skipped(outside domain or known finding)'] = stats['outcomes'].get('skipped(outside domain or known finding)', 0) + 1
                 return
             a = val
             key = '%s:%s' % (a[0], type(a[1]).__name__ if a[0] == 'raise' else 'value')
